@@ -11,12 +11,30 @@ import math
 from sa import minieval as _me
 from sa import pat as _pat
 from sa import source
-from sa.cfg import cfg_of, guards
+from sa.cfg import cfg_of
+from sa.cfg import guards as _cfg_guards
 from sa.classes import ActorModel, is_failure_send, is_logging_call, is_logging_stmt
 from sa.source import AnchorMissing, dotted, inline, is_self_attr, last_attr, local_defs, package_calls, params_of, short, u, walk_body
 from sa.sym import parse_expr, rat_equal
 
 _D = "esrally/driver/driver.py"
+
+
+def _says_nothing(t, pol=True):
+    """a test that is a constant of the polarity it is taken with (`while True:` around a routine that leaves by return / break): it says nothing about WHEN the guarded node runs"""
+    if isinstance(t, ast.UnaryOp) and isinstance(t.op, ast.Not):
+        return _says_nothing(t.operand, not pol)
+    return isinstance(t, ast.Constant) and bool(t.value) == pol
+
+
+def guards(node, *a, **k):
+    """sa.cfg.guards without the constant tests of endless loops: the conditions a node runs under are the same whether a routine repeats itself by recursion or by `while True:`"""
+    return [(t, pol) for t, pol in _cfg_guards(node, *a, **k) if not _says_nothing(t, pol)]
+
+
+def _fact_nodes(node, *a, **k):
+    """sa.pat.fact_nodes without constant facts (see guards)"""
+    return [f for f in _pat.fact_nodes(node, *a, **k) if not _says_nothing(f)]
 
 
 def _has_jump(loop):
@@ -32,7 +50,7 @@ def _call_fact(node, name, positive, stop=None):
     been stored in a single-assignment local first (`done = self.finished()` ... `if done:`)."""
     fn = source.enclosing_func(node)
     held = {k for k, v in (local_defs(fn).items() if fn is not None else []) if isinstance(v, ast.Call) and last_attr(v.func) == name}
-    for f in _pat.fact_nodes(node, stop=stop):
+    for f in _fact_nodes(node, stop=stop):
         if isinstance(f, ast.Name) and f.id in held and positive:
             return True
         if isinstance(f, ast.UnaryOp) and isinstance(f.op, ast.Not) and isinstance(f.operand, ast.Name) and f.operand.id in held and not positive:
@@ -157,7 +175,7 @@ def complete_read_exemption_rule(chk, rid, drv):
         return any(isinstance(x, ast.Call) and u(x.func) == f"self.{done}.is_set" for x in ast.walk(source.inline_node(e, edefs)))
 
     def _exempt(node):
-        return any(inline(f_, edefs) in ("not self.task.completes_parent",) for f_ in _pat.fact_nodes(node, stop=XL))
+        return any(inline(f_, edefs) in ("not self.task.completes_parent",) for f_ in _fact_nodes(node, stop=XL))
 
     # what the loop hands to its body per iteration that has a bearing on "is this client's own work done": the runner says it is not
     loopvars = {x.id: _me.Record(completed=False, percent_completed=None) for x in ast.walk(XL.target) if isinstance(x, ast.Name)} if isinstance(XL, (ast.For, ast.AsyncFor)) else {}
@@ -455,6 +473,66 @@ class _Obj:
         return f"<{self.cls.name if self.cls is not None else 'model'} {self.fields.get('_label', '')}>"
 
 
+class _Rec(_Obj):
+    """model of a named-tuple record - `X = collections.namedtuple("X", ...)` as well as a class-based `class X(typing.NamedTuple)` (cls = its ClassDef, so that methods / properties
+    of the class and isinstance() keep working): the fields are read by name AND by position; iteration / unpacking, indexing, len() and equality are those of the tuple of its
+    field values (two records with the same values are equal, as in Python); it is immutable."""
+
+    def __init__(self, cls, name, names, vals):
+        super().__init__(cls, **vals)
+        self.name = name
+        self.names = list(names)
+        self.items = lambda o: [o.fields[f] for f in o.names]
+        self.init_args = dict(vals)
+
+    def astuple(self):
+        return tuple(self.fields[f] for f in self.names)
+
+    def __iter__(self):
+        return iter(self.astuple())
+
+    def __len__(self):
+        return len(self.names)
+
+    def __getitem__(self, k):
+        return self.astuple()[k]
+
+    def __eq__(self, other):
+        if isinstance(other, _Rec):
+            return self.astuple() == other.astuple()
+        if isinstance(other, tuple):
+            return self.astuple() == other
+        return NotImplemented
+
+    def __ne__(self, other):
+        r = self.__eq__(other)
+        return r if r is NotImplemented else not r
+
+    def __hash__(self):
+        return hash(self.astuple())
+
+    def __repr__(self):
+        return f"{self.name}({', '.join(f'{f}={self.fields[f]!r}' for f in self.names)})"
+
+
+def _is_namedtuple_class(mod, cls):
+    """class X(typing.NamedTuple) / class X(NamedTuple) (the base resolved through the imports of the module)"""
+    for b in cls.bases:
+        d = dotted(b)
+        if d is None:
+            continue
+        head = d.split(".")[0]
+        full = (mod.imports.get(head, head) + d[len(head):]) if head in mod.imports else d
+        if full in ("typing.NamedTuple", "NamedTuple", "typing_extensions.NamedTuple"):
+            return True
+    return False
+
+
+def _namedtuple_fields(cls):
+    """[(field, default expression | None)] of a class-based NamedTuple: its annotated class-level names in order"""
+    return [(st.target.id, st.value) for st in cls.body if isinstance(st, ast.AnnAssign) and isinstance(st.target, ast.Name)]
+
+
 class _Bound:
     def __init__(self, obj, fn, cls):
         self.obj, self.fn, self.cls = obj, fn, cls
@@ -508,15 +586,46 @@ class _Machine:
         self.classes = {c.name: c for c in mod.tree.body if isinstance(c, ast.ClassDef)}
         self.functions = {f.name: f for f in mod.tree.body if isinstance(f, source.FUNC_TYPES)}
         # module-level record types: X = collections.namedtuple("X", [fields]) / namedtuple("X", "a b")
-        self.records = {}
+        #                            X = typing.NamedTuple("X", [("a", int), ("b", str)]); class-based ones (class X(NamedTuple): a: int ...) are constructed by new()
+        self.records = {}  # name -> (field names, {field: default expression})
         for st in mod.tree.body:
-            if isinstance(st, ast.Assign) and len(st.targets) == 1 and isinstance(st.targets[0], ast.Name) and isinstance(st.value, ast.Call) and last_attr(st.value.func) == "namedtuple" \
-                    and len(st.value.args) == 2:
+            if isinstance(st, ast.Assign) and len(st.targets) == 1 and isinstance(st.targets[0], ast.Name) and isinstance(st.value, ast.Call) \
+                    and last_attr(st.value.func) in ("namedtuple", "NamedTuple") and len(st.value.args) == 2 and all(k.arg == "defaults" for k in st.value.keywords):
                 try:
                     fl = ast.literal_eval(st.value.args[1])
                 except ValueError:
+                    if last_attr(st.value.func) == "NamedTuple" and isinstance(st.value.args[1], (ast.List, ast.Tuple)) \
+                            and all(isinstance(x, (ast.Tuple, ast.List)) and len(x.elts) == 2 and isinstance(x.elts[0], ast.Constant) and isinstance(x.elts[0].value, str) for x in st.value.args[1].elts):
+                        fl = [x.elts[0].value for x in st.value.args[1].elts]  # [("a", int), ...]: the types are names, not literals
+                    else:
+                        continue
+                if last_attr(st.value.func) == "NamedTuple":
+                    if not (isinstance(fl, (list, tuple)) and all(isinstance(x, str) or (isinstance(x, (list, tuple)) and len(x) == 2 and isinstance(x[0], str)) for x in fl)):
+                        continue
+                    fl = [x if isinstance(x, str) else x[0] for x in fl]
+                names = fl.replace(",", " ").split() if isinstance(fl, str) else list(fl)
+                if not all(isinstance(x, str) for x in names):
                     continue
-                self.records[st.targets[0].id] = fl.replace(",", " ").split() if isinstance(fl, str) else list(fl)
+                dflt = {}
+                if st.value.keywords:
+                    dv = st.value.keywords[0].value
+                    if not isinstance(dv, (ast.List, ast.Tuple)) or len(dv.elts) > len(names):
+                        continue
+                    dflt = dict(zip(names[len(names) - len(dv.elts):], dv.elts))
+                self.records[st.targets[0].id] = (names, dflt)
+
+    def record(self, cls, name, names, dflt, args, kwargs):
+        """a named-tuple record constructed with args / kwargs (positional, by field name, defaults)"""
+        kwargs = dict(kwargs or {})
+        if len(args) > len(names) or set(kwargs) - set(names[len(args):]):
+            raise _Cannot(f"arguments of record {name}")
+        vals = dict(zip(names, args), **kwargs)
+        for f in names:
+            if f not in vals:
+                if dflt.get(f) is None:
+                    raise _Cannot(f"record {name}: field {f} not supplied")
+                vals[f] = self.ev(dflt[f], {})
+        return _Rec(cls, name, names, {f: vals[f] for f in names})
 
     # -- classes --------------------------------------------------------------------------------------------------------------------------------
     def _mro(self, cls):
@@ -541,6 +650,12 @@ class _Machine:
         return {dotted(d.func if isinstance(d, ast.Call) else d) or "?" for d in fn.decorator_list}
 
     def new(self, cls, args=(), kwargs=None):
+        if _is_namedtuple_class(self.mod, cls):  # class X(NamedTuple): the annotated names are the fields (constructor, order, defaults); methods / properties stay those of the class
+            fl = _namedtuple_fields(cls)
+            obj = self.record(cls, cls.name, [f for f, _ in fl], dict(fl), list(args), kwargs)
+            if self.on_new is not None:
+                self.on_new(cls, obj)
+            return obj
         obj = _Obj(cls)
         init, owner = self._member(cls, "__init__")
         if init is not None:
@@ -652,7 +767,9 @@ class _Machine:
                     if cn in self.classes:
                         res = res or (isinstance(v, _Obj) and v.cls is not None and self.classes[cn] in self._mro(v.cls))
                     elif cn in _SAFE_BUILTINS and isinstance(_SAFE_BUILTINS[cn], type):
-                        res = res or isinstance(v, _SAFE_BUILTINS[cn])
+                        res = res or isinstance(v, _SAFE_BUILTINS[cn]) or (cn == "tuple" and isinstance(v, _Rec))
+                    elif cn in self.records:
+                        res = res or (isinstance(v, _Rec) and v.cls is None and v.name == cn)
                     else:
                         raise _Cannot(f"isinstance against {cn}")
                 if isinstance(v, _Opaque):
@@ -670,11 +787,7 @@ class _Machine:
                 return self.new(self.classes[d], args, kwargs)
             if d in self.records:
                 eval_args()
-                fl = self.records[d]
-                if len(args) > len(fl) or set(kwargs) - set(fl[len(args):]) or len(args) + len(kwargs) != len(fl):
-                    raise _Cannot(f"arguments of record {d}")
-                vals = dict(zip(fl, args), **kwargs)
-                return _Obj(None, items=lambda o, fl=fl: [o.fields[f] for f in fl], **vals)
+                return self.record(None, d, self.records[d][0], self.records[d][1], args, kwargs)
             if d in self.functions:
                 eval_args()
                 return self.call_function(self.functions[d], args, kwargs)
@@ -776,6 +889,25 @@ class _Machine:
                     for st in c.body:
                         if isinstance(st, ast.Assign) and any(isinstance(t, ast.Name) and t.id == name for t in st.targets):
                             return self.ev(st.value, {})
+            if isinstance(v, _Rec):  # what every named tuple has besides its fields
+                if name == "_fields":
+                    return tuple(v.names)
+                if name in ("_asdict", "_replace", "index", "count"):
+                    def helper(*a, _v=v, _name=name, **k):
+                        if _name == "_asdict" and not a and not k:
+                            return {f: _v.fields[f] for f in _v.names}
+                        if _name == "_replace" and not a and set(k) <= set(_v.names):
+                            return _Rec(_v.cls, _v.name, _v.names, dict({f: _v.fields[f] for f in _v.names}, **k))
+                        if _name in ("index", "count") and len(a) == 1 and not k and not isinstance(a[0], _Opaque):
+                            try:
+                                return getattr(_v.astuple(), _name)(a[0])
+                            except ValueError as x:
+                                raise _Cannot(f"{_v!r}.{_name}: {x}")
+                        raise _Cannot(f"arguments of {_v.name}.{_name}")
+
+                    helper._model_callable = True
+                    return helper
+                raise _Cannot(f"record {v.name} has no field {name}")
             if self.attr_hook is not None:
                 r = self.attr_hook(v, name)
                 if r is not NotImplemented:
@@ -968,6 +1100,8 @@ class _Machine:
                 self.bind(t_, v_, env)
         elif isinstance(t, ast.Attribute):
             o = self.ev(t.value, env)
+            if isinstance(o, _Rec):
+                raise _Cannot(f"store to `{short(t, 40)}`: a named tuple is immutable")
             if isinstance(o, _Obj):
                 o.fields[t.attr] = v
             elif not isinstance(o, _Opaque):
@@ -1661,13 +1795,43 @@ def _class_view(mod, cls, repo):
     return {n: f for n, f in exp.items() if id(meths[n]) not in inl}
 
 
+def _same_value_locals(fn):
+    """name -> representative of the locals of fn that hold the same value through plain copies `a = b` (each of them stored once): the name a value travels under plays no role"""
+    stores = collections.Counter(n.id for n in walk_body(fn) if isinstance(n, ast.Name) and isinstance(n.ctx, (ast.Store, ast.Del)))
+    rep = {}
+
+    def find(x):
+        while rep.get(x, x) != x:
+            x = rep[x]
+        return x
+
+    for n in walk_body(fn):
+        if isinstance(n, ast.Assign) and len(n.targets) == 1 and isinstance(n.targets[0], ast.Name) and isinstance(n.value, ast.Name) and stores[n.targets[0].id] == 1 \
+                and stores[n.value.id] <= 1:
+            a, b = find(n.targets[0].id), find(n.value.id)
+            if a != b:
+                rep[a] = b
+    return find
+
+
 def _worker_list_attrs(dm):
     """Driver attributes that collect the started workers: self.<attr>.append(w) where w is what start_worker() is called with (role by data flow, not by attribute name)"""
     out = set()
     for m in dm.values():
-        started = {c.args[0].id for c in source.calls_in(m, attr="start_worker") if c.args and isinstance(c.args[0], ast.Name)}
+        same = _same_value_locals(m)
+        started = {same(c.args[0].id) for c in source.calls_in(m, attr="start_worker") if c.args and isinstance(c.args[0], ast.Name)}
+        # a helper that is not analysed in place (not private to its caller): w = self.<helper>(...) where the helper returns what it called start_worker() with
+        for n in walk_body(m):
+            if isinstance(n, ast.Assign) and len(n.targets) == 1 and isinstance(n.targets[0], ast.Name) and isinstance(n.value, ast.Call) and isinstance(n.value.func, ast.Attribute) \
+                    and isinstance(n.value.func.value, ast.Name) and n.value.func.value.id == "self" and n.value.func.attr in dm and dm[n.value.func.attr] is not m:
+                h = dm[n.value.func.attr]
+                hsame = _same_value_locals(h)
+                hstarted = {hsame(c.args[0].id) for c in source.calls_in(h, attr="start_worker") if c.args and isinstance(c.args[0], ast.Name)}
+                rets = [r for r in walk_body(h) if isinstance(r, ast.Return)]
+                if hstarted and rets and all(isinstance(r.value, ast.Name) and hsame(r.value.id) in hstarted for r in rets):
+                    started.add(same(n.targets[0].id))
         for c in source.calls_in(m, attr="append"):
-            if isinstance(c.func, ast.Attribute) and is_self_attr(c.func.value) and c.args and isinstance(c.args[0], ast.Name) and c.args[0].id in started:
+            if isinstance(c.func, ast.Attribute) and is_self_attr(c.func.value) and c.args and isinstance(c.args[0], ast.Name) and same(c.args[0].id) in started:
                 out.add(c.func.value.attr)
     return out
 
@@ -1735,6 +1899,8 @@ def _ctor_params(drv, cls):
         init = drv.methods(c).get("__init__")
         if init is not None:
             return [p for p in params_of(init)[1:]]
+    if _is_namedtuple_class(drv, cls):
+        return [f for f, _ in _namedtuple_fields(cls)]
     if {"dataclass", "dataclasses.dataclass"} & {dotted(d.func if isinstance(d, ast.Call) else d) for d in cls.decorator_list}:
         return [st.target.id for c in reversed(_Machine(drv)._mro(cls)) for st in c.body if isinstance(st, ast.AnnAssign) and isinstance(st.target, ast.Name)]
     return None
@@ -1960,6 +2126,116 @@ def _adapter_on_values(drv, repo, wcls, w_sampler, w_cancel, w_done):
     return verdicts, arun, ga[0]
 
 
+def _drive_on_values(drv, wcls, drive_name, view_attr, w_cancel, w_done, complete_from_call=None, calls=9):
+    """O1.9 (which rows the worker executes) on VALUES: Worker.drive - whatever it was split into, whether it repeats itself for a skipped row by recursion or in a loop - is
+    interpreted on a model worker (its own constructor; the two request events, the thread pool, send / wakeupAfter / send_samples replaced by recording stand-ins; nothing of the
+    repository is executed) over the model rows
+         0 join point | 1 tasks | 2 empty | 3 tasks | 4 join point | 5 tasks | 6 tasks | 7 join point
+    drive() is called once per Drive / wake-up that would call it; with complete_from_call=k the complete event is set before the k-th call (a CompleteCurrentTask that arrives while
+    the row of call k-1 runs). Returns per call the list of what it did: ("jp", row) a JoinPointReached message sent (row: the one it carries, else the last one read),
+    ("run", row) an executor adapter built from that row handed to the pool. Raises _Cannot outside the interpreted subset."""
+    JP, EMPTY, LAST = {0, 4, 7}, {2}, 7
+    reads, trace, empties = [], [], {}
+
+    class _PastEnd(Exception):
+        pass
+
+    def tasks(idx, *a, **k):
+        if not isinstance(idx, int) or isinstance(idx, bool):
+            raise _Cannot(f"the row view is asked for row {idx!r}")
+        if not 0 <= idx <= LAST:
+            trace[-1].append(("beyond", idx))  # located and wrong: the worker walked past the last join point (or backwards) without reporting it
+            raise _PastEnd()
+        reads.append(idx)
+        return empties.setdefault(idx, []) if idx in EMPTY else [("row", idx)]
+
+    def is_joinpoint(idx):
+        return idx in JP
+
+    def event(label):
+        st = {"v": False}
+
+        def is_set():
+            return st["v"]
+
+        def set_():
+            st["v"] = True
+
+        def clear():
+            st["v"] = False
+
+        for f in (is_set, set_, clear):
+            f._model_callable = True
+        return _Obj(None, is_set=is_set, set=set_, clear=clear, _label=label), st
+
+    def row_in(v, depth=0, seen=None):
+        """the model row a value was built from (searched through the fields of model objects and containers)"""
+        seen = seen if seen is not None else set()
+        if id(v) in seen or depth > 4:
+            return None
+        seen.add(id(v))
+        if isinstance(v, list) and len(v) == 1 and isinstance(v[0], tuple) and len(v[0]) == 2 and v[0][0] == "row":
+            return v[0][1]
+        for i_, e_ in empties.items():
+            if v is e_:
+                return i_
+        kids = [x for k_, x in v.fields.items() if k_ != "_label"] + list(v.init_args.values()) if isinstance(v, _Obj) else list(v) if isinstance(v, (list, tuple)) \
+            else list(v.values()) if isinstance(v, dict) else []
+        for x in kids:
+            r = row_in(x, depth + 1, seen)
+            if r is not None:
+                return r
+        return None
+
+    def submit(what, *a, **k):
+        r = row_in([what, list(a), k])
+        if r is None:
+            raise _Cannot("what the worker hands to its thread pool is not built from the row it read")
+        trace[-1].append(("run", r))
+        done = lambda *a_, **k_: None  # noqa: E731
+        done._model_callable = True
+        return _Obj(None, result=done, _label="future")
+
+    def send(target, msg=None, *a, **k):
+        if isinstance(msg, _Obj) and msg.cls is not None and msg.cls.name == "JoinPointReached":
+            r = row_in(msg)
+            trace[-1].append(("jp", r if r is not None else (reads[-1] if reads else None)))
+
+    def nothing(*a, **k):
+        return None
+
+    for f in (tasks, is_joinpoint, submit, send, nothing):
+        f._model_callable = True
+    pools = {c.func.value.attr for m in drv.methods(wcls).values() for c in source.calls_in(m, attr="submit") if isinstance(c.func, ast.Attribute) and is_self_attr(c.func.value)}
+    if len(pools) != 1:
+        raise AnchorMissing("the worker attribute whose submit(...) starts the executor (self.<pool>.submit(...))")
+    mach = _Machine(drv, attr_hook=lambda obj, name: {"send": send, "wakeupAfter": nothing}.get(name, NotImplemented))
+    wobj = mach.new(wcls)
+    # attributes still None after the constructor that the drive routine (and what it calls) never stores: filled in by the start-up handlers from messages / the configuration
+    # (configuration, track, ids, intervals ...) - values without a representative. What drive() itself manages (the pending future, the sampler ...) keeps its initial value.
+    own = {t_.attr for f_ in _closure_in_module(drv, drv.methods(wcls)[drive_name]) for n in walk_body(f_) if isinstance(n, (ast.Assign, ast.AnnAssign, ast.AugAssign))
+           for t_ in (n.targets if isinstance(n, ast.Assign) else [n.target]) if is_self_attr(t_)}
+    for k_, v_ in list(wobj.fields.items()):
+        if v_ is None and k_ not in own:
+            wobj.fields[k_] = _Opaque(f"worker.{k_}")
+    (done_ev, done_st), (cancel_ev, _) = event("complete event"), event("cancel event")
+    wobj.fields.update({view_attr: _Obj(None, tasks=tasks, is_joinpoint=is_joinpoint, _label="row view"), w_done: done_ev, w_cancel: cancel_ev,
+                        next(iter(pools)): _Obj(None, submit=submit, _label="pool"), "send_samples": nothing})
+    for k in range(1, calls + 1):
+        if complete_from_call == k:
+            done_st["v"] = True
+        trace.append([])
+        try:
+            mach.apply(mach.getattr(wobj, drive_name), [], {})
+        except _PastEnd:
+            break
+        if ("jp", LAST) in trace[-1]:
+            break
+    # an executor started for an EMPTY row has nothing to run (no client is allocated to anything there): harmless for this property, not part of the comparison
+    idle = lambda c_: bool(c_) and all(x[0] == "run" and x[1] in EMPTY for x in c_)  # noqa: E731
+    return [[x for x in c_ if not (x[0] == "run" and x[1] in EMPTY)] for c_ in trace if not idle(c_)], done_st["v"]
+
+
 class _AlreadyDecided(Exception):
     """leaves a rule section whose obligations were decided by a stronger method before"""
 
@@ -2108,9 +2384,15 @@ def run(chk):
                     unknown_.append(x_)
             if unknown_:
                 continue
-            try:
-                vals = [bool(_me.ev(test, {"self": _me.Record(**{cands[0]: a}, **others_)})) for a in (1, 2, 3)]
-            except _me.CannotEval:
+            vals = None
+            for stand_in in (3, ["x0", "x1", "x2"]):  # an attribute that is not derived from the started workers: a number or a collection, whichever the test can be evaluated with
+                trial = {k_: (stand_in if k_ in foreign else v_) for k_, v_ in others_.items()}
+                try:
+                    vals = [bool(_me.ev(test, {"self": _me.Record(**{cands[0]: a}, **trial)})) for a in (1, 2, 3)]
+                    break
+                except (_me.CannotEval, TypeError):
+                    continue
+            if vals is None:
                 continue
             counter, bt, res, bt_reads = cands[0], n, vals, reads - {cands[0]}
             break
@@ -2366,7 +2648,7 @@ def run(chk):
 
         def blocked_by(c, attr):
             """with self.<attr> == True some condition on the way to c is false: decided by evaluating the atomic guard facts of c (negations pushed in, guard clauses included)"""
-            for f_ in _pat.fact_nodes(c, path_sensitive=True):
+            for f_ in _fact_nodes(c, path_sensitive=True):
                 if not any(is_self_attr(x, attr) for x in ast.walk(f_)):
                     continue
                 try:
@@ -2388,7 +2670,7 @@ def run(chk):
                 changed = {x.attr for n in walk_body(mc) if isinstance(n, (ast.Assign, ast.AugAssign, ast.Expr)) and gmc.dominated_by_nodes(cn, [gmc.node_of(n)])
                            for x in ast.walk(n) if is_self_attr(x) and (isinstance(x.ctx, ast.Store) or (isinstance(source.parent(x), ast.Attribute) and isinstance(source.parent(source.parent(x)), ast.Call)
                                                                                                     and source.parent(x).attr in ("add", "append", "update", "setdefault")))}
-                read_ = {x.attr for f_ in _pat.fact_nodes(c, path_sensitive=True) for x in ast.walk(f_) if is_self_attr(x)}
+                read_ = {x.attr for f_ in _fact_nodes(c, path_sensitive=True) for x in ast.walk(f_) if is_self_attr(x)}
                 if changed & read_:
                     chk.unknown("O1.4", f"the broadcast is controlled by self.{sorted(changed & read_)[0]}, which is not a boolean set to True before it (memo shape not recognised)", c)
                     continue
@@ -2454,13 +2736,13 @@ def run(chk):
             return any(is_self_attr(x, stepmap) for x in ast.walk(e))
 
         pend_names = {n.func.value.id for n in walk_body(mc) if isinstance(n, ast.Call) and last_attr(n.func) in ("append", "add") and isinstance(n.func.value, ast.Name)
-                      and any(_on_stepmap(source.inline_node(f_, mdefs)) for f_ in _pat.fact_nodes(n))}
+                      and any(_on_stepmap(source.inline_node(f_, mdefs)) for f_ in _fact_nodes(n))}
         pend_names |= {t.id for n in walk_body(mc) if isinstance(n, ast.Assign) for t in n.targets if isinstance(t, ast.Name)
                        and isinstance(n.value, (ast.ListComp, ast.GeneratorExp, ast.SetComp)) and any(_on_stepmap(i_) for g_ in n.value.generators for i_ in g_.ifs)}
         allowed = {canon(x) for x in jl_names} | {canon(x) for x in pend_names} | ({f"self.{flag}"} if flag else set())
         for c in cc_calls:
             extra = []
-            for f_ in _pat.fact_nodes(c, path_sensitive=True):
+            for f_ in _fact_nodes(c, path_sensitive=True):
                 reads = {canon(x.id) if isinstance(x, ast.Name) else u(x) for x in ast.walk(f_)
                          if (isinstance(x, ast.Name) and x.id not in ("len", "self", "any", "all", "bool")) or (isinstance(x, ast.Attribute) and isinstance(x.value, ast.Name) and x.value.id == "self")}
                 if not reads <= allowed:
@@ -2582,14 +2864,14 @@ def run(chk):
         for send in sends:
             sn = gwd.node_of(send)
             gs = guards(send, path_sensitive=True)
-            fs_ = _pat.fact_nodes(send)
+            fs_ = _fact_nodes(send)
             ok = len(fs_) == 1 and _jp(fs_[0])
             chk.ob("O1.5", "sent only at a join point", ok, send, f"guards {[(u(t), p) for t, p in gs]}")
             res = [n for n in walk_body(wd) if isinstance(n, ast.Call) and last_attr(n.func) == "result" and _recv(n, wdefs) == f"self.{w_future}"]
             ok = False
             if res:
                 # only guarded by the join-point test and `future is not None` (guard facts: either arm, either polarity of the written test)
-                extra = [f_ for f_ in _pat.fact_nodes(res[0]) if not (_jp(f_) or _is_not(f_, _jp)) and inline(f_, wdefs) not in (f"self.{w_future} is not None", f"None is not self.{w_future}", f"self.{w_future}")]
+                extra = [f_ for f_ in _fact_nodes(res[0]) if not (_jp(f_) or _is_not(f_, _jp)) and inline(f_, wdefs) not in (f"self.{w_future} is not None", f"None is not self.{w_future}", f"self.{w_future}")]
                 ok = not extra and not gwd.path_exists(sn, gwd.node_of(res[0]), avoid=[gwd.entry])
                 # the send is not reachable from the arm of the future test that holds result() without passing result()
                 ift = source.enclosing(res[0], ast.If)
@@ -2702,7 +2984,7 @@ def run(chk):
                        ": a CompleteCurrentTask that arrived between Drive and this point is wiped; the worker runs tasks of an element that is already completed and the request is never repeated",
                        key=f"{_D}:{source.qualname(n)}:complete.clear")
         for n in [n for n in walk_body(wd_) if _on_event(n, "clear")]:
-            ok = gwd.dominated_by_nodes(gwd.node_of(jp_send[0]), [gwd.node_of(n)]) and any(_jp(f_) for f_ in _pat.fact_nodes(n))
+            ok = gwd.dominated_by_nodes(gwd.node_of(jp_send[0]), [gwd.node_of(n)]) and any(_jp(f_) for f_ in _fact_nodes(n))
             chk.ob("O1.6", "complete.clear() only at the join point, before JoinPointReached is sent", ok, n, f"in {source.qualname(n)}" + ("" if ok else
                    ": a CompleteCurrentTask that arrived between Drive and this point is wiped; the worker runs tasks of an element that is already completed and the request is never repeated"),
                    key=f"{_D}:{source.qualname(n)}:complete.clear")
@@ -2829,7 +3111,7 @@ def run(chk):
 
         def _sd(n):
             """n executes only when start_driving was found set (guard fact, whichever arm / polarity the test is written in)"""
-            return any(is_self_attr(f_, w_pending) or _pat.is_(f_, f"self.{w_pending} is True", f"self.{w_pending} == True") for f_ in _pat.fact_nodes(n))
+            return any(is_self_attr(f_, w_pending) or _pat.is_(f_, f"self.{w_pending} is True", f"self.{w_pending} == True") for f_ in _fact_nodes(n))
 
         resets = [n for n in walk_body(wk) if isinstance(n, ast.Assign) and any(is_self_attr(x, w_pending) for x in n.targets) and source.is_const(n.value, False) and _sd(n)]
         drives = [n for n in walk_body(wk) if isinstance(n, ast.Call) and u(n.func) == "self.drive" and _sd(n)]
@@ -2917,6 +3199,27 @@ def run(chk):
         ok = jp_is == [True, False, False, True]
         chk.ob("O1.9", "is_joinpoint: all entries are join points", ok, ij, f"rows (JP, JP), (task, None), (task, JP), (JP, JP) -> {jp_is}" + ("" if ok else ": a row that still holds a task is taken for a join point (or a join point is not recognised)"))
 
+    with _Section(chk, "O1.9"):
+        # which rows the worker executes, on values (see _drive_on_values): without a completion request every task row is handed to the pool once, in order, and every join point
+        # is reported; a completion request never carries the worker past the next join point and is forgotten there (the first row of the next element runs)
+        wd0 = W.methods.get("drive")
+        if wd0 is None:
+            raise AnchorMissing("Worker.drive")
+        plain, _ = _drive_on_values(drv, W.node, wd0.name, view_attr, w_cancel, w_done)
+        want = [[("jp", 0)], [("run", 1)], [("run", 3)], [("jp", 4)], [("run", 5)], [("run", 6)], [("jp", 7)]]
+        ok = plain == want
+        chk.ob("O1.9", "no completion request: every task row is executed once, in order, every join point is reported", ok, wm.get(wd0.name, wd0),
+               "rows JP, tasks, empty, tasks, JP, tasks, tasks, JP; one drive() per Drive / wake-up -> " + (f"{plain}" if ok else f"{plain} instead of {want}: a task row is skipped, "
+               "executed twice or out of order (or a join point is passed without a report)"), key=f"{_D}:Worker.drive:rows-executed")
+        cut, still_set = _drive_on_values(drv, W.node, wd0.name, view_attr, w_cancel, w_done, complete_from_call=3)
+        flat = [x for c_ in cut[2:] for x in c_]
+        upto = flat[:flat.index(("jp", 4)) + 1] if ("jp", 4) in flat else flat
+        after = flat[len(upto):]
+        ok = cut[:2] == want[:2] and upto in ([("jp", 4)], [("run", 3), ("jp", 4)]) and after == [("run", 5), ("run", 6), ("jp", 7)]
+        chk.ob("O1.9", "a completion request ends at the next join point: no row of a later element is skipped", ok, wm.get(wd0.name, wd0),
+               f"complete event set while row 1 runs -> {cut}" + ("" if ok else ": expected [jp 0], [run 1], then (row 3 skipped or run) jp 4 reported, then run 5, run 6, jp 7"),
+               key=f"{_D}:Worker.drive:completion-request-ends-at-join-point")
+
     # ---- O1.10 every allocated (client, task) pair is run exactly once ------------------------------------------------------------------------------
     chk.rule("O1.10", "the worker's row view pairs every client with its own non-empty entry at the index; the executor adapter creates exactly one executor per (client, task allocation) "
              "of the row, unconditionally, and awaits all of them; one parameter source per task", 6,
@@ -2929,7 +3232,9 @@ def run(chk):
             """(client id, entry) of every element of the row view at index i; an element that does not carry an integer and an object of the model matrix is not recognised"""
             out = []
             for e in m2._iter(m2.apply(m2.getattr(view, tk.name), [i], {}), tk):
-                vals = list(e.fields.values()) if isinstance(e, _Obj) and e.cls is None else list(e) if isinstance(e, (tuple, list)) else None
+                # a record (named tuple of either spelling, dataclass, plain class) or a tuple / list: what matters is which VALUES it carries, not how they are named
+                vals = list(e.astuple()) if isinstance(e, _Rec) else [v for k_, v in e.fields.items() if k_ != "_label"] if isinstance(e, _Obj) and not any(e is x for x in matrix_objs) \
+                    else list(e) if isinstance(e, (tuple, list)) else None
                 ids = [v for v in (vals or []) if isinstance(v, int) and not isinstance(v, bool)]
                 ents = [v for v in (vals or []) if any(v is x for x in matrix_objs)]
                 if len(ids) != 1 or len(ents) != 1:
@@ -3060,7 +3365,7 @@ def run(chk):
     if loops:
         lb_ = [s_ for s_ in loops[0].body if not is_logging_stmt(s_)]
         first = lb_[0] if lb_ else loops[0]
-        brk_ = [b_ for b_ in ast.walk(first) if isinstance(b_, ast.Break) and any(isinstance(f_, ast.Call) and u(f_.func).endswith("cancel.is_set") for f_ in _pat.fact_nodes(b_, stop=loops[0]))]
+        brk_ = [b_ for b_ in ast.walk(first) if isinstance(b_, ast.Break) and any(isinstance(f_, ast.Call) and u(f_.func).endswith("cancel.is_set") for f_ in _fact_nodes(b_, stop=loops[0]))]
         if not (isinstance(first, ast.If) and brk_):
             chk.adv("O1.8", "the request loop does not start with `if cancel.is_set(): break`", first)
         if not any(isinstance(n, ast.Call) and u(n.func) == "self.complete.is_set" for n in ast.walk(loops[0])):
@@ -3312,4 +3617,113 @@ VARIANTS += [
     V("h3 break: schedule computed for the first allocation of the row", "break", _D, "            schedule = schedule_for(task_allocation, params_per_task[task])\n",
       "            schedule = schedule_for(self.task_allocations[0], params_per_task[task])\n", "O1.10"),
     V("h3 break: the gather result is not awaited", "break", _D, _GA_OLD, "            _ = asyncio.gather(*awaitables)\n", "O1.10"),
+]
+
+# ---- hardening round 4: class-based typing.NamedTuple records in the row view (O1.9 / O1.10: the interpreter's record model _Rec), the started worker followed through copies and
+# through an extracted start helper (role of the worker list, O1.2 / O1.2b) ------------------------------------------------------------------------------------------------------
+_CA_NT_OLD = "ClientAllocation = collections.namedtuple(\"ClientAllocation\", [\"client_id\", \"task\"])\n"
+_CA_NT_NEW = ("class ClientAllocation(NamedTuple):\n    \"\"\"an entry of the allocation matrix together with its client\"\"\"\n\n    client_id: int\n    task: Any\n\n\n"
+              "class ClientTasks(NamedTuple):\n    \"\"\"a row of the allocation matrix\"\"\"\n\n    client_id: int\n    tasks: list\n")
+_TYPING_OLD = "from typing import Callable, Optional\n"
+_TYPING_NEW = "from typing import Any, Callable, NamedTuple, Optional\n"
+_VIEW_COMP = ("        entries = [(client_id, tasks[task_index]) for client_id, tasks in self.allocations]\n"
+              "        return [ClientAllocation(client_id, entry) for client_id, entry in entries if remove_empty and entry is not None]\n")
+_SW_OLD = ("                    worker = self.driver_actor.create_client(host, self.config, worker_id)\n\n                    client_allocations = ClientAllocations()\n"
+           "                    worker_client_contexts = {}\n                    for client_id in clients:\n"
+           "                        client_allocations.add(client_id, self.allocations[client_id])\n                        self.clients_per_worker[client_id] = worker_id\n"
+           "                        client_context = ClientContext(client_id=client_id, parent_worker_id=worker_id)\n\n                        if create_api_keys:\n"
+           "                            resp = self.create_api_key(self.default_sync_es_client, client_id)\n"
+           "                            client_context.api_key = ApiKey(id=resp[\"id\"], secret=resp[\"api_key\"])\n\n"
+           "                        worker_client_contexts[client_id] = client_context\n                        self.client_contexts[worker_id] = worker_client_contexts\n"
+           "                    self.driver_actor.start_worker(\n"
+           "                        worker, worker_id, self.config, self.track, client_allocations, client_contexts=worker_client_contexts\n                    )\n")
+_SW_CALL = "                    worker = self._start_worker(host, worker_id, clients, create_api_keys)\n"
+_SW_HELPER = ("    def _start_worker(self, host, worker_id, client_ids, create_api_keys):\n        worker = self.driver_actor.create_client(host, self.config, worker_id)\n\n"
+              "        client_allocations = ClientAllocations()\n        worker_client_contexts = {}\n        for client_id in client_ids:\n"
+              "            client_allocations.add(client_id, self.allocations[client_id])\n            self.clients_per_worker[client_id] = worker_id\n"
+              "            client_context = ClientContext(client_id=client_id, parent_worker_id=worker_id)\n\n            if create_api_keys:\n"
+              "                resp = self.create_api_key(self.default_sync_es_client, client_id)\n"
+              "                client_context.api_key = ApiKey(id=resp[\"id\"], secret=resp[\"api_key\"])\n\n"
+              "            worker_client_contexts[client_id] = client_context\n            self.client_contexts[worker_id] = worker_client_contexts\n"
+              "        self.driver_actor.start_worker(\n            worker, worker_id, self.config, self.track, client_allocations, client_contexts=worker_client_contexts\n        )\n"
+              "        return worker\n\n")
+_JR_AT = "    def joinpoint_reached(self, worker_id, worker_local_timestamp, task_allocations):\n"
+_BARRIER = "        if self.currently_completed == len(self.workers):"
+
+
+def _nt_view(view, add="        self.allocations.append(ClientTasks(client_id, tasks))\n"):
+    return [V("", "keep", _D, _CA_NT_OLD, _CA_NT_NEW), V("", "keep", _D, _TYPING_OLD, _TYPING_NEW), V("", "keep", _D, _ADD_OLD, add), V("", "keep", _D, _VIEW_OLD, view)]
+
+
+def _named(name, kind, rule, edits):
+    edits[0].name, edits[0].kind, edits[0].rule = name, kind, rule
+    for e in edits[1:]:
+        e.kind = kind
+    return edits
+
+
+VARIANTS += [
+    _named("h4 keep (C01-b10): rows and entries of the row view as class-based typing.NamedTuple records, tasks() as two comprehensions", "keep", None, _nt_view(_VIEW_COMP)),
+    _named("h4 keep: NamedTuple rows constructed by keyword and read by field name / by position", "keep", None,
+           _nt_view("        return [ClientAllocation(task=row.tasks[task_index], client_id=row[0]) for row in self.allocations if remove_empty and row.tasks[task_index] is not None]\n",
+                    add="        self.allocations.append(ClientTasks(tasks=tasks, client_id=client_id))\n")),
+    _named("h4 break: NamedTuple rows, every client is paired with the first client's entry", "break", "O1.10",
+           _nt_view(_VIEW_COMP.replace("(client_id, tasks[task_index]) for client_id, tasks in self.allocations", "(client_id, self.allocations[0].tasks[task_index]) for client_id, tasks in self.allocations"))),
+    _named("h4 break: NamedTuple entry constructed with its fields crossed (positional order is the declaration order: .task is the client id)", "break", "O1.9",
+           _nt_view(_VIEW_COMP.replace("ClientAllocation(client_id, entry)", "ClientAllocation(entry, client_id)"))),
+    _named("h4 break: NamedTuple rows, the None filter inverted in the comprehension", "break", "O1.10", _nt_view(_VIEW_COMP.replace("entry is not None", "entry is None"))),
+    [V("h4 keep (C02-b11): creating and starting one worker extracted into a helper that returns it; the caller appends the result", "keep", _D, _SW_OLD, _SW_CALL),
+     V("", "keep", _D, _JR_AT, _SW_HELPER + _JR_AT)],
+    [V("h4 keep: the started worker travels through a copy before it is collected", "keep", _D, "                    self.workers.append(worker)\n",
+       "                    started = worker\n                    self.workers.append(started)\n")],
+    [V("h4 break: start helper extracted, barrier one short of the collected workers", "break", _D, _SW_OLD, _SW_CALL, "O1.2"),
+     V("", "break", _D, _JR_AT, _SW_HELPER + _JR_AT), V("", "break", _D, _BARRIER, "        if self.currently_completed == len(self.workers) - 1:")],
+    [V("h4 break: start helper extracted, barrier counts against the clients instead of the collected workers", "break", _D, _SW_OLD, _SW_CALL, "O1.2"),
+     V("", "break", _D, _JR_AT, _SW_HELPER + _JR_AT), V("", "break", _D, _BARRIER, "        if self.currently_completed == len(self.allocations):")],
+]
+
+# Worker.drive repeating itself per skipped row by `while True:` (return at the join point, break before the executor is started) instead of by recursion (C09-b9): the constant
+# loop test is no condition (guards / _fact_nodes at the top of the module); O1.5 / O1.6 / O1.7 / O1.9 must read the loop shape like the recursive one
+_DRIVE_RE = r"    def drive\(self\):\n        assert self\.config is not None\n.*?\n    def at_joinpoint\(self\):\n"
+_DRIVE_LOOP = ("    def drive(self):\n        assert self.config is not None\n        while True:\n            task_allocations = self.current_tasks_and_advance()\n"
+               "            while len(task_allocations) == 0:\n                task_allocations = self.current_tasks_and_advance()\n\n"
+               "            if self.at_joinpoint():\n                self.logger.debug(\"Worker[%d] reached join point at index [%d].\", self.worker_id, self.current_task_index)\n"
+               "                if self.executor_future is not None:\n                    self.executor_future.result()\n"
+               "                self.send_samples()\n                self.cancel.clear()\n                self.complete.clear()\n                self.executor_future = None\n"
+               "                self.sampler = None\n                self.send(self.driver_actor, JoinPointReached(self.worker_id, task_allocations))\n                return\n\n"
+               "            if not self.complete.is_set():\n                break\n"
+               "            self.logger.info(\"Worker[%d] skips tasks at index [%d].\", self.worker_id, self.current_task_index)\n\n"
+               "        self.logger.debug(\"Worker[%d] is executing tasks at index [%d].\", self.worker_id, self.current_task_index)\n        self.send_samples()\n"
+               "        self.sampler = Sampler(start_timestamp=time.perf_counter(), buffer_size=self.sample_queue_size)\n"
+               "        executor = AsyncIoAdapter(\n            self.config,\n            self.track,\n            task_allocations,\n            self.sampler,\n            self.cancel,\n"
+               "            self.complete,\n            self.on_error,\n            self.client_contexts,\n            self.worker_id,\n        )\n\n"
+               "        self.executor_future = self.pool.submit(executor)\n        self.wakeupAfter(datetime.timedelta(seconds=self.wakeup_interval))\n\n"
+               "    def at_joinpoint(self):\n")
+
+
+def _loop(name, kind, rule=None, old=None, new=""):
+    assert old is None or _DRIVE_LOOP.count(old) == 1, old
+    return V(name, kind, _D, _DRIVE_RE, _DRIVE_LOOP if old is None else _DRIVE_LOOP.replace(old, new), rule, regex=True)
+
+
+VARIANTS += [
+    _loop("h4 keep (C09-b9): drive() repeats itself per skipped row in a `while True:` loop (return at the join point, break before the executor starts)", "keep"),
+    _loop("h4 break: loop shape, the barrier message is sent without waiting for the executor future", "break", "O1.5",
+          "                if self.executor_future is not None:\n                    self.executor_future.result()\n"),
+    _loop("h4 break: loop shape, the complete event is not cleared at the join point", "break", "O1.5", "                self.complete.clear()\n"),
+    _loop("h4 break: loop shape, the worker goes on to the next row after reporting the join point (no return)", "break", None,
+          "JoinPointReached(self.worker_id, task_allocations))\n                return\n", "JoinPointReached(self.worker_id, task_allocations))\n"),
+    _loop("h4 break: loop shape, the executor is started and no wake-up is scheduled", "break", "O1.7",
+          "        self.wakeupAfter(datetime.timedelta(seconds=self.wakeup_interval))\n"),
+    _loop("h4 break: loop shape, rows are skipped while the complete event is NOT set", "break", None, "            if not self.complete.is_set():\n", "            if self.complete.is_set():\n"),
+]
+
+# O1.9 on values (which rows the worker executes): the recursive shape of the unchanged tree
+VARIANTS += [
+    V("h4 break: rows are skipped while the complete event is NOT set (recursive shape)", "break", _D,
+      "            if self.complete.is_set():\n                self.logger.info(\n                    \"Worker[%d] skips", "            if not self.complete.is_set():\n                self.logger.info(\n                    \"Worker[%d] skips", "O1.9"),
+    V("h4 break: with the complete event set the worker runs past the join point", "break", _D, "        if self.at_joinpoint():\n            self.logger.debug(\"Worker[%d] reached join point",
+      "        if self.at_joinpoint() and not self.complete.is_set():\n            self.logger.debug(\"Worker[%d] reached join point", None),
+    V("h4 keep: skipping an empty row by `while not task_allocations`", "keep", _D, "        while len(task_allocations) == 0:\n            task_allocations = self.current_tasks_and_advance()\n\n        if self.at_joinpoint():",
+      "        while not task_allocations:\n            task_allocations = self.current_tasks_and_advance()\n\n        if self.at_joinpoint():"),
 ]
